@@ -545,8 +545,8 @@ namespace c10
   template<typename Shape_> inline void register_shape(std::vector<vf::Target>& tg)
   {
     const std::string s = ShapeInfo<Shape_>::name();
-    tg.push_back({s + "_refine", [](vf::Tape& t, vf::Ctx& c) { refine_case<Shape_>(t, c); }, 256, 8, 60000});
-    tg.push_back({s + "_sym2", [](vf::Tape& t, vf::Ctx& c) { sym2_case<Shape_>(t, c); }, 128, 1, 120000});
-    tg.push_back({s + "_perm", [](vf::Tape& t, vf::Ctx& c) { perm_case<Shape_>(t, c); }, 256, 8, 60000});
+    tg.push_back({s + "_refine", [](vf::Tape& t, vf::Ctx& c) { refine_case<Shape_>(t, c); }, 192, 2, 60000});
+    tg.push_back({s + "_sym2", [](vf::Tape& t, vf::Ctx& c) { sym2_case<Shape_>(t, c); }, 96, 0, 120000});
+    tg.push_back({s + "_perm", [](vf::Tape& t, vf::Ctx& c) { perm_case<Shape_>(t, c); }, 192, 2, 60000});
   }
 } // namespace c10
